@@ -19,6 +19,7 @@ import (
 	"go/parser"
 	"go/token"
 	"os"
+	"os/exec"
 	"path/filepath"
 	"sort"
 	"strconv"
@@ -31,6 +32,10 @@ type rewrite struct {
 }
 
 type mutant struct {
+	Add []struct {
+		Path   string `json:"path"`   // absolute target path (may start with $BOLT)
+		Source string `json:"source"` // file under the group's overlay directory
+	} `json:"add"`
 	Name  string `json:"name"`
 	Edits []struct {
 		File string `json:"file"`
@@ -101,14 +106,48 @@ func main() {
 		}
 	}
 
+	boltDir := ""
+	resolve := func(f string) string {
+		if strings.Contains(f, "$BOLT") {
+			if boltDir == "" {
+				cmd := exec.Command("go", "list", "-m", "-f", "{{.Dir}}", "github.com/boltdb/bolt")
+				cmd.Dir = *root
+				out, err := cmd.Output()
+				if err != nil || len(bytes.TrimSpace(out)) == 0 {
+					die("cannot locate the bolt module: %v", err)
+				}
+				boltDir = string(bytes.TrimSpace(out))
+			}
+			f = strings.ReplaceAll(f, "$BOLT", boltDir)
+		}
+		return f
+	}
 	for _, g := range []string{"common", *group} {
 		base := filepath.Join(*root, "overlay", g)
 		if _, err := os.Stat(base); err != nil {
 			continue
 		}
+		// always-on textual edits (same format as a mutant; "file" may be absolute or start with $BOLT): recorder hooks in third-party code
+		if eb, err := os.ReadFile(filepath.Join(base, "edits.json")); err == nil {
+			var m mutant
+			if err := json.Unmarshal(eb, &m); err != nil {
+				die("%s/edits.json: %v", g, err)
+			}
+			for _, e := range m.Edits {
+				p := abs(*repo, resolve(e.File))
+				src := load(p)
+				if n := bytes.Count(src, []byte(e.Old)); n != 1 {
+					die("%s/edits.json: %q occurs %d times in %s (need exactly 1)", g, e.Old, n, e.File)
+				}
+				modified[p] = bytes.Replace(src, []byte(e.Old), []byte(e.New), 1)
+			}
+			for _, a := range m.Add {
+				replace[resolve(a.Path)] = filepath.Join(base, a.Source)
+			}
+		}
 		// added files
 		filepath.Walk(base, func(p string, info os.FileInfo, err error) error {
-			if err != nil || info.IsDir() || !strings.HasSuffix(p, ".go") {
+			if err != nil || info.IsDir() || !strings.HasSuffix(p, ".go") || strings.Contains(p, "/_files/") {
 				return nil
 			}
 			rel, _ := filepath.Rel(base, p)
